@@ -405,6 +405,8 @@ class Interp:
                 return
             vals = self.iterate(val, t)
             if len(vals) != len(t.elts):
+                if isinstance(val, list | tuple | str):
+                    raise RaiseSignal('ValueError', t, self.where(t), (f'unpack: expected {len(t.elts)} values, got {len(vals)}',))
                 raise AnalysisError(f'unpack mismatch at {self.where(t)}')
             for sub, v in zip(t.elts, vals, strict=True):
                 self.assign(sub, v, env, mi)
@@ -490,8 +492,26 @@ class Interp:
         if not broke:
             self.exec_body(st.orelse, env, mi)
 
+    MAX_LOOP = 200_000
+
     def st_While(self, st, env, mi):
-        raise AnalysisError(f'while loop outside the analysable subset at {self.where(st)}')
+        n = 0
+        while True:
+            c = self.eval(st.test, env, mi)
+            if isinstance(c, Opaque | SVar):
+                raise AnalysisError(f'while loop on a symbolic condition at {self.where(st)}')
+            if not self.truth(c, st.test):
+                self.exec_body(st.orelse, env, mi)
+                return
+            n += 1
+            if n > self.MAX_LOOP:
+                raise AnalysisError(f'while loop exceeds {self.MAX_LOOP} iterations at {self.where(st)}')
+            try:
+                self.exec_body(st.body, env, mi)
+            except BreakSignal:
+                return
+            except ContinueSignal:
+                continue
 
     def st_Break(self, st, env, mi):
         raise BreakSignal()
@@ -1158,6 +1178,8 @@ class Interp:
                 return self.call_function(gi, [key], {}, bound=obj)
         if isinstance(key, Opaque | SVar):
             return Opaque('⊤ index')
+        if obj is None:
+            raise RaiseSignal('TypeError', node, self.where(node), ("'NoneType' object is not subscriptable",))
         try:
             return obj[key]
         except (KeyError, IndexError):
